@@ -183,8 +183,17 @@ def _do_job(job, fd, vtty, termios, fcntl, array) -> dict:
         raise KeyboardInterrupt
 
     signal.signal(signal.SIGINT, on_sigint)
+    # watchdog inside the worker: the operation sends at most two queries, each bounded by its
+    # timeout; long after that, the next intercepted call raises StillWaiting inside the library
+    total_s = 2 * max(scn["tmo"], op["tmo"], 1) / vtty.TICK_HZ
+    rec.wall_deadline = t0 + min(12.0, 4 * total_s + 2.0)
+    hang = ""
     try:
-        final = vtty.run_op(rec, op)
+        try:
+            final = vtty.run_op(rec, op)
+        except vtty.Hang as h:
+            hang = str(h)
+            final = {"status": "hung", "kind": type(h).__name__, "rb": [], "rnone": True, "val": dict(vtty.NOVAL)}
     finally:
         signal.signal(signal.SIGINT, signal.SIG_IGN)
         elapsed = time.monotonic() - t0
@@ -198,9 +207,11 @@ def _do_job(job, fd, vtty, termios, fcntl, array) -> dict:
     while not residual.endswith(SENTINEL):
         if time.monotonic() > deadline:
             return {"error": "sentinel did not arrive"}
+        if len(residual) > 1 << 20:
+            return {"error": "more than 1 MiB left on the slave"}
         if select.select([fd], [], [], 0.05)[0]:
             residual += os.read(fd, 4096)
-    final.update(residual=list(residual[:-1]), attr=codec.to_record(after_raw),
+    final.update(hang=hang, residual=list(residual[:-1]), attr=codec.to_record(after_raw),
                  elapsed=int(elapsed * vtty.TICK_HZ) + 1, slack=job.get("slack", 0))
     return {"events": rec.events, "final": final, "fired": rec.fired, "op": op, "before": before, "sig": sig["where"],
             "raw_equal": _attr_bytes(before_raw) == _attr_bytes(after_raw),
@@ -346,7 +357,7 @@ class PtySession:
     # -- one job -----------------------------------------------------------------------
     def run(self, scn: dict, *, requests: list[bytes] = (), bursts: list[list[tuple[float, bytes]]] = (),
             fault: dict | None = None, sigint_after: float | None = None, limit: float = 15.0,
-            slack: int = 0) -> dict:
+            slack: int = 0, retry_silence: bool = True) -> dict:
         """scn: {opx, attr0, win, preload, enabled, swap, tmo(ticks), pred}.  `requests[i]` is the
         i-th request the terminal expects, `bursts[i]` its answer as (real delay s, bytes)."""
         res = {}
@@ -358,7 +369,7 @@ class PtySession:
                 # a call that really blocks does so again: only a second silence in a row counts
                 # (the session has been restarted)
                 silent += 1
-                if silent > 1:
+                if silent > 1 or not retry_silence:
                     raise
                 self.stalls = getattr(self, "stalls", 0) + 1
                 continue
@@ -373,7 +384,8 @@ class PtySession:
 
     def _run_once(self, scn, requests, bursts, fault, sigint_after, limit, slack) -> dict:
         with self._lock:
-            plan = {"requests": requests, "bursts": bursts, "next": 0, "pos": len(self._seen), "sent": bytearray(),
+            del self._seen[:]  # what earlier jobs wrote to their terminal is of no interest any more
+            plan = {"requests": requests, "bursts": bursts, "next": 0, "pos": 0, "sent": bytearray(),
                     "saw_request": threading.Event()}
         self._send({"scn": scn, "fault": fault, "slack": slack})
         timer = None
